@@ -28,7 +28,8 @@ type HarnessSpec struct {
 	Timeout int            `json:"timeout,omitempty"`
 	Split   bool           `json:"split,omitempty"` // one query per obligation instead of one per kind
 	// Expect lists obligation messages that are expected to be violated (used by known findings / self tests)
-	Tag string `json:"tag,omitempty"`
+	Tag    string   `json:"tag,omitempty"`
+	Filter []string `json:"filter,omitempty"` // property ids: keep only assertions/covers whose tag (text before ':') mentions one of them
 }
 
 type ObResult struct {
@@ -99,7 +100,13 @@ func NewSession(repo, harnessDir string) (*Session, error) {
 		nativeBin: map[string]string{}, nativeErr: map[string]string{}}, nil
 }
 
-func (s *Session) Close() { os.RemoveAll(s.Scratch) }
+func (s *Session) Close() {
+	if os.Getenv("GOSMT_KEEP") != "" {
+		fmt.Fprintln(os.Stderr, "scratch kept at", s.Scratch)
+		return
+	}
+	os.RemoveAll(s.Scratch)
+}
 
 type obligation struct {
 	kind, msg, pos string
@@ -107,8 +114,95 @@ type obligation struct {
 	members        int
 }
 
+type job struct {
+	ob    *obligation
+	roots []*smt.Term
+	out   *ObResult
+	tag   string
+	res   SolveResult
+}
+
+// Prepared is a symbolically executed harness whose queries are not yet solved.
+type Prepared struct {
+	spec    HarnessSpec
+	res     *HarnessResult
+	ex      *symex.Exec
+	jobs    []*job
+	known   []ObResult
+	solvers []string
+	timeout int
+}
+
+func tagMatches(msg string, filter []string) bool {
+	if len(filter) == 0 {
+		return true
+	}
+	tag := msg
+	if i := strings.Index(msg, ":"); i >= 0 {
+		tag = msg[:i]
+	}
+	if strings.HasPrefix(tag, "NE") {
+		return true
+	}
+	for _, f := range filter {
+		if strings.Contains(tag, f) {
+			return true
+		}
+	}
+	return false
+}
+
 // RunHarness symbolically executes one harness and discharges its obligations.
-func (s *Session) RunHarness(spec HarnessSpec) (res HarnessResult) {
+func (s *Session) RunHarness(spec HarnessSpec) HarnessResult {
+	p := s.Prepare(spec)
+	s.SolveAll([]*Prepared{p})
+	return *p.res
+}
+
+// SolveAll discharges the queries of all prepared harnesses in one worker pool and post-processes them.
+func (s *Session) SolveAll(ps []*Prepared) {
+	t1 := time.Now()
+	nsolv := 2
+	var all []*job
+	owner := map[*job]*Prepared{}
+	for _, p := range ps {
+		if len(p.solvers) > 0 {
+			nsolv = len(p.solvers)
+		}
+		for _, j := range p.jobs {
+			all = append(all, j)
+			owner[j] = p
+		}
+	}
+	sem := make(chan struct{}, 16/nsolv)
+	var wg sync.WaitGroup
+	for _, j := range all {
+		wg.Add(1)
+		go func(j *job) {
+			defer wg.Done()
+			sem <- struct{}{}
+			defer func() { <-sem }()
+			p := owner[j]
+			j.res = Solve(j.roots, p.solvers, p.timeout, s.Scratch, j.tag)
+		}(j)
+	}
+	wg.Wait()
+	total := time.Since(t1).Seconds()
+	for _, p := range ps {
+		p.res.SolveS = total
+		s.finish(p)
+	}
+}
+
+// Prepare symbolically executes one harness and builds its queries.
+func (s *Session) Prepare(spec HarnessSpec) *Prepared {
+	res := &HarnessResult{}
+	prep := &Prepared{spec: spec, res: res}
+	s.prepare(spec, res, prep)
+	return prep
+}
+
+func (s *Session) prepare(spec HarnessSpec, res *HarnessResult, prep *Prepared) {
 	res.Spec = spec
 	t0 := time.Now()
 	pkgPath := ModPrefix + "/" + spec.Pkg
@@ -121,6 +215,8 @@ func (s *Session) RunHarness(spec HarnessSpec) (res HarnessResult) {
 		return
 	}
 	ex := symex.NewExec(s.Loaded.Prog, ModPrefix)
+	prep.ex = ex
+	ex.Trace = os.Getenv("GOSMT_TRACE") != ""
 	if spec.Unwind > 0 {
 		ex.Unwind = spec.Unwind
 	}
@@ -145,6 +241,19 @@ func (s *Session) RunHarness(spec HarnessSpec) (res HarnessResult) {
 		ex.CallFn(st, nil, fn, nil, nil, 0)
 	}()
 	res.ExecS = time.Since(t0).Seconds()
+	if s.Verbose || os.Getenv("GOSMT_DEBUG") != "" {
+		fmt.Fprintf(os.Stderr, "[gosmt] %s %v exec %.2fs terms=%d forks=%d instrs=%d outcomes=%d\n", spec.Func, spec.Params, res.ExecS, smt.NumTerms, ex.Forks, ex.Instrs, len(ex.Outcomes))
+		fmt.Fprintf(os.Stderr, "[gosmt] terms by op: %v\n", smt.NumByOp)
+		cnt := map[string]int{}
+		for _, o := range ex.Outcomes {
+			cnt[o.Kind+" "+o.Msg+" @ "+o.Pos]++
+		}
+		for k, v := range cnt {
+			if v > 20 {
+				fmt.Fprintf(os.Stderr, "[gosmt] outcome x%d %s\n", v, k)
+			}
+		}
+	}
 	for n := range ex.Encoded {
 		res.Encoded = append(res.Encoded, n)
 	}
@@ -169,6 +278,9 @@ func (s *Session) RunHarness(spec HarnessSpec) (res HarnessResult) {
 	var order []string
 	var covers []*obligation
 	for _, o := range ex.Outcomes {
+		if (o.Kind == "cover" || o.Kind == "assert") && !tagMatches(o.Msg, spec.Filter) {
+			continue
+		}
 		if o.Kind == "cover" {
 			covers = append(covers, &obligation{kind: o.Kind, msg: o.Msg, pos: o.Pos, cond: o.Cond, members: 1})
 			continue
@@ -190,30 +302,24 @@ func (s *Session) RunHarness(spec HarnessSpec) (res HarnessResult) {
 	}
 	solvers := spec.Solvers
 	if len(solvers) == 0 {
-		solvers = []string{"z3"}
+		solvers = []string{"z3-new", "cvc5"}
 	}
 	timeout := spec.Timeout
 	if timeout == 0 {
 		timeout = 120
 	}
-	t1 := time.Now()
-	type job struct {
-		ob    *obligation
-		roots []*smt.Term
-		out   *ObResult
-		tag   string
-	}
-	var jobs []job
+	prep.solvers, prep.timeout = solvers, timeout
+	var jobs []*job
 	res.Obligations = make([]ObResult, len(order))
 	for i, key := range order {
 		g := groups[key]
 		res.Obligations[i] = ObResult{Kind: g.kind, Msg: g.msg, Pos: g.pos, Members: g.members}
-		jobs = append(jobs, job{ob: g, roots: []*smt.Term{g.cond, notKnown}, out: &res.Obligations[i], tag: fmt.Sprintf("%s-%s-ob%d", spec.Func, spec.Tag, i)})
+		jobs = append(jobs, &job{ob: g, roots: []*smt.Term{g.cond, notKnown}, out: &res.Obligations[i], tag: fmt.Sprintf("%s-%s-ob%d", spec.Func, spec.Tag, i)})
 	}
 	res.Covers = make([]ObResult, len(covers))
 	for i, c := range covers {
 		res.Covers[i] = ObResult{Kind: c.kind, Msg: c.msg, Pos: c.pos}
-		jobs = append(jobs, job{ob: c, roots: []*smt.Term{c.cond}, out: &res.Covers[i], tag: fmt.Sprintf("%s-%s-cv%d", spec.Func, spec.Tag, i)})
+		jobs = append(jobs, &job{ob: c, roots: []*smt.Term{c.cond}, out: &res.Covers[i], tag: fmt.Sprintf("%s-%s-cv%d", spec.Func, spec.Tag, i)})
 	}
 	// known findings: each must still be reachable together with some violation
 	var knownObs []ObResult
@@ -228,26 +334,17 @@ func (s *Session) RunHarness(spec HarnessSpec) (res HarnessResult) {
 		knownObs = make([]ObResult, len(ex.Known))
 		for i, k := range ex.Known {
 			knownObs[i] = ObResult{Kind: "known", Msg: k.ID}
-			jobs = append(jobs, job{ob: &obligation{kind: "known", msg: k.ID, cond: smt.And(anyViolation, k.Pred)}, roots: []*smt.Term{anyViolation, k.Pred}, out: &knownObs[i], tag: fmt.Sprintf("%s-%s-kf%d", spec.Func, spec.Tag, i)})
+			jobs = append(jobs, &job{ob: &obligation{kind: "known", msg: k.ID, cond: smt.And(anyViolation, k.Pred)}, roots: []*smt.Term{anyViolation, k.Pred}, out: &knownObs[i], tag: fmt.Sprintf("%s-%s-kf%d", spec.Func, spec.Tag, i)})
 		}
 	}
-	sem := make(chan struct{}, 16/len(solvers))
-	var wg sync.WaitGroup
-	results := make([]SolveResult, len(jobs))
-	for i := range jobs {
-		wg.Add(1)
-		// the term table is not thread-safe: render scripts sequentially inside Solve? Solve only reads terms.
-		go func(i int) {
-			defer wg.Done()
-			sem <- struct{}{}
-			defer func() { <-sem }()
-			results[i] = Solve(jobs[i].roots, solvers, timeout, s.Scratch, jobs[i].tag)
-		}(i)
-	}
-	wg.Wait()
-	res.SolveS = time.Since(t1).Seconds()
-	for i, j := range jobs {
-		r := results[i]
+	prep.jobs = jobs
+	prep.known = knownObs
+}
+
+func (s *Session) finish(prep *Prepared) {
+	res, spec, ex := prep.res, prep.spec, prep.ex
+	for _, j := range prep.jobs {
+		r := j.res
 		j.out.Status = r.Status
 		j.out.Solver = r.Solver
 		j.out.TimeS = r.TimeS
@@ -270,8 +367,7 @@ func (s *Session) RunHarness(spec HarnessSpec) (res HarnessResult) {
 			}
 		}
 	}
-	res.Obligations = append(res.Obligations, knownObs...)
-	return
+	res.Obligations = append(res.Obligations, prep.known...)
 }
 
 func dedupe(in []string) []string {
